@@ -259,3 +259,4 @@ def run(chk, facts, tier):
     residual_hom.check(chk, facts, "C13.RESIDUAL")
     from rules import c13_projectable
     c13_projectable.check(chk, facts)
+    residual_hom.check_substitute(chk, facts)
